@@ -120,7 +120,33 @@ pub struct SeqEval<'a> {
 
 pub fn eval_seq_case(e: &SeqEval<'_>, case: &SeqCase, want_sample: bool) -> CaseReport {
 	let r = run_seq(case, e.opts);
-	report_seq(e, case, &r, want_sample)
+	let mut rep = report_seq(e, case, &r, want_sample);
+	// second shrinking stage, on request of the runner (a violation is about to be recorded)
+	if let Some(sig) = crate::runner::minimize_sig() {
+		if rep.violations.iter().any(|f| f.sig == sig) {
+			let fails = |c: &SeqCase| {
+				let r = run_seq(c, e.opts);
+				if r.invalid.is_some() {
+					return false;
+				}
+				let mut v = mine(e.prop, &r);
+				if let Some(x) = e.extra {
+					v.extend(x(c, &r));
+				}
+				v.iter().any(|f| f.sig == sig)
+			};
+			let small = crate::minimize::minimize_seq(case, &fails);
+			if &small != case {
+				let r2 = run_seq(&small, e.opts);
+				let rep2 = report_seq(e, &small, &r2, false);
+				if rep2.violations.iter().any(|f| f.sig == sig) {
+					rep.replay = rep2.replay;
+					rep.violations = rep2.violations;
+				}
+			}
+		}
+	}
+	rep
 }
 
 pub fn report_seq(e: &SeqEval<'_>, case: &SeqCase, r: &RunResult, want_sample: bool) -> CaseReport {
@@ -157,6 +183,29 @@ pub struct ConcEval<'a> {
 }
 
 pub fn eval_conc_case(e: &ConcEval<'_>, case: &ConcCase, want_sample: bool) -> CaseReport {
+	let mut rep = eval_conc_case_plain(e, case, want_sample);
+	if let Some(sig) = crate::runner::minimize_sig() {
+		if rep.violations.iter().any(|f| f.sig == sig) {
+			// start from the exact choices taken
+			let start: ConcCase = rep.replay.as_ref().and_then(|v| serde_json::from_value(v["case"].clone()).ok()).unwrap_or_else(|| case.clone());
+			let fails = |c: &ConcCase| {
+				let r = eval_conc_case_plain(e, c, false);
+				!r.invalid && r.violations.iter().any(|f| f.sig == sig)
+			};
+			let small = crate::minimize::minimize_conc(&start, &fails);
+			if small != start {
+				let rep2 = eval_conc_case_plain(e, &small, false);
+				if rep2.violations.iter().any(|f| f.sig == sig) {
+					rep.replay = rep2.replay;
+					rep.violations = rep2.violations;
+				}
+			}
+		}
+	}
+	rep
+}
+
+fn eval_conc_case_plain(e: &ConcEval<'_>, case: &ConcCase, want_sample: bool) -> CaseReport {
 	let opts = Opts { conc: true, ..Default::default() };
 	let r = run_conc(case, opts);
 	if r.invalid.is_some() {
